@@ -32,7 +32,7 @@ type StandardClass struct {
 	pkg             *slip.Package
 	precedence      []slip.Symbol
 	defaultInitArgs map[string]slip.Object
-	initArgs        map[string]*SlotDef // map with keys of initargs
+	initArgs        map[string][]*SlotDef // the slots, by distinct name, each initarg fills
 	initForms       map[string]*SlotDef
 	methods         map[string]*slip.Method
 	baseClass       slip.Symbol
@@ -385,13 +385,13 @@ func (c *StandardClass) mergeSupers() bool {
 		}
 		m.Combinations = append(m.Combinations, im.Combinations...)
 	}
-	c.initArgs = map[string]*SlotDef{}
+	c.initArgs = map[string][]*SlotDef{}
 	c.initForms = map[string]*SlotDef{}
 	for i := len(c.inherit) - 1; 0 <= i; i-- {
 		if sc, ok := c.inherit[i].(isStandardClass); ok {
 			for _, sd := range sc.slotDefMap() {
 				for _, ia := range sd.initargs {
-					c.initArgs[string(ia)] = sd
+					c.addInitArg(string(ia), sd)
 				}
 				if sd.initform != slip.Unbound {
 					c.initForms[sd.name] = sd
@@ -401,7 +401,7 @@ func (c *StandardClass) mergeSupers() bool {
 	}
 	for _, sd := range c.slotDefs {
 		for _, ia := range sd.initargs {
-			c.initArgs[string(ia)] = sd
+			c.addInitArg(string(ia), sd)
 		}
 		if sd.initform != slip.Unbound {
 			c.initForms[sd.name] = sd
@@ -453,8 +453,22 @@ func (c *StandardClass) slotDefMap() map[string]*SlotDef {
 	return c.slotDefs
 }
 
-func (c *StandardClass) initArgDef(name string) *SlotDef {
+func (c *StandardClass) initArgDefs(name string) []*SlotDef {
 	return c.initArgs[name]
+}
+
+// addInitArg records that the initarg fills the slot. An initarg can be
+// shared by several slots. The most specific definition of a slot, added
+// last, replaces a less specific one.
+func (c *StandardClass) addInitArg(initarg string, sd *SlotDef) {
+	sds := c.initArgs[initarg]
+	for i, x := range sds {
+		if x.name == sd.name {
+			sds[i] = sd
+			return
+		}
+	}
+	c.initArgs[initarg] = append(sds, sd)
 }
 
 func (c *StandardClass) initFormMap() map[string]*SlotDef {
